@@ -2,7 +2,7 @@
     the supplied pair, binds a session, and only to the store of that address;
     for every sequence of attempts and backend behaviours. *)
 From Coq Require Import String Ascii List Bool Arith NArith ZArith Lia.
-From Raven Require Import Base.GoStr Spec.Json Model.Auth Spec.AuthSpec Proof.AuthJson Proof.AuthIdent.
+From Raven Require Import Base.GoStr Spec.Json Model.CmdTokenizer Model.Auth Spec.AuthSpec Proof.AuthJson Proof.AuthIdent.
 Import ListNotations.
 Local Open Scope char_scope.
 
@@ -14,7 +14,7 @@ Definition creds_wf (c : creds) : Prop := match c with Direct R_OK => False | _ 
 
 Lemma login_creds_wf au tls line : creds_wf (login_creds au tls line).
 Proof.
-  unfold login_creds. destruct (fields (trim_space line)) as [|t [|cmd rest]]; simpl; auto.
+  unfold login_creds. destruct (split_command_line (trim_space line)) as [|t [|cmd rest]]; simpl; auto.
   destruct (str_eqb _ _); simpl; auto.
   destruct rest as [|a [|b rest]]; simpl; auto. destruct au, tls; simpl; auto.
 Qed.
@@ -57,7 +57,7 @@ Lemma login_direct au tls line : au = true \/ tls = false ->
   exists r, login_creds au tls line = Direct r /\ r <> R_OK.
 Proof.
   intros H. unfold login_creds.
-  destruct (fields (trim_space line)) as [|t [|cmd rest]]; try (eexists; split; [reflexivity|discriminate]).
+  destruct (split_command_line (trim_space line)) as [|t [|cmd rest]]; try (eexists; split; [reflexivity|discriminate]).
   destruct (str_eqb _ _); try (eexists; split; [reflexivity|discriminate]).
   destruct rest as [|a [|b0 rest]]; try (eexists; split; [reflexivity|discriminate]).
   destruct au; [eexists; split; [reflexivity|discriminate]|].
